@@ -328,7 +328,11 @@ class WExec:
             return v
         if op == "global.get":
             if e[1] in self.m.strings:
-                return Str(self.m.strings[e[1]].decode("latin-1"))
+                raw = self.m.strings[e[1]]
+                try:
+                    return Str(raw.decode("utf-8"))
+                except UnicodeDecodeError:
+                    return Str(raw.decode("latin-1"))
             return Sym("global:" + e[1], "any")
         if op.startswith("i32."):
             return self.arith(op[4:], e, st)
@@ -560,7 +564,7 @@ class WExec:
 
     def arr_parts(self, a, st):
         if isinstance(a, Str):
-            return ([Int(BV(b if b < 128 else b - 256)) for b in a.s.encode("latin-1")], None, None)
+            return ([Int(BV(b if b < 128 else b - 256)) for b in a.s.encode("utf-8")], None, None)
         if isinstance(a, Sym):
             k = ("s", a.key)
             if k not in st.heap:
